@@ -254,10 +254,34 @@ def interest_c08(mask, fdk, mcode, case):
     return None
 
 
+def failfast_ok(case):
+    """C10_failfast on the implementation's own log: when execute_once raised PropertyStatechartError for property
+    statechart L, no code of the MONITORED statechart was executed or evaluated after the last evaluator call of L's
+    interpreter (i.e. after the delivery during which L became final)."""
+    o = case['out']
+    if o[0] != 'err' or o[1][0] != 'EProperty':
+        return True
+    try:
+        pid = case['wpost']['props'][o[1][1]][1]['id']
+    except Exception:  # noqa
+        return True
+    last = None
+    for i, c in enumerate(case['calls']):
+        if c['sig']['interp'] == pid:
+            last = i
+    if last is None:
+        return True
+    return not any(c['sig']['interp'] == 0 for c in case['calls'][last + 1:])
+
+
 def interest_c10(mask, fdk, mcode, case):
     impl = ifam.impl_outcome(case)
+    if not failfast_ok(case):
+        return 'code of the monitored statechart ran after a property statechart had become final (C10_failfast)'
     if mask & B.PB_META:
         return 'a listener did not receive exactly the documented meta-events of the returned macro step (C10_complete)'
+    if mask & B.INTERLEAVE and not (mask & (B.TRACE | B.SELECTED | B.EVENT | B.LOGS)) and premise_ok(case):
+        return 'meta-events are not emitted at the documented points between the code of the monitored statechart: same code, same meta-events, another interleaving (C10_complete: in the order the things happened / C10_failfast)'
     if mask & (B.SELECTED | B.EVENT) or not premise_ok(case) or fdk is not None:
         return None
     if mask & B.OUTCOME and 'EProperty' in (impl, mcode):
